@@ -14,6 +14,9 @@ import edm
 import eevent
 import elin
 import evlm
+import edef
+import ereduce
+import ecanon
 
 
 def run(ctx, F, dm=True):
@@ -35,3 +38,17 @@ def run(ctx, F, dm=True):
                 "vector; the two managers' copies are the same program.")
     n = evlm.run(ctx, F)
     ctx.floor("E-VLM", "interpreted VarLevelMap situations", n, 38)
+    ctx.explain("E-TABLE.reduce: the step rules take `reduce` as a builtin that yields the reduced node: all 12 reduce functions "
+                "of the five kinds are interpreted over their abstract child domain. E-TABLE.defaults: BooleanOperator::from_usize "
+                "is the inverse of `as usize`; satisfiable / valid compare with the false / true terminal; NumberBase::is_zero / "
+                "is_one / is_nan are equalities with the constants. E-LIN.rcguard / E-CANON.idsplit / .ptrsplit: a node leaves its "
+                "table only with the three guards passed; terminals and inner nodes are told apart without off-by-one / flipped tests.")
+    n = ereduce.run(ctx, F)
+    ctx.floor("E-TABLE.reduce", "abstract situations of the reduce functions", n, 400)
+    n = edef.run(ctx, F)
+    ctx.floor("E-TABLE.defaults", "interpreted default-method situations", n, 26)
+    n = elin.check_removal_guards(ctx, F)
+    ctx.floor("E-LIN.rcguard", "try_remove_node bodies", n, 2)
+    ecanon.check_id_split(ctx, F)
+    n = ecanon.check_ptr_split(ctx, F)
+    ctx.floor("E-CANON.ptrsplit", "is_inner() branches of the pointer-based manager", n, 6)
